@@ -15,8 +15,11 @@ def plan(ctx):
     for rate in ("high", "low"):
         ms = [m for m in dec if m["rate"] == rate]
         small = [m for m in ms if m["k"] + m["r"] == 4]
-        quick.add(rnd.choice([m for m in small if not m["complete"]])["name"])
-        quick.add(rnd.choice([m for m in ms if m["complete"]])["name"])
+        # a pattern with recovery shard 0 missing (the position right behind the originals / in front of them)
+        quick.add(rnd.choice([m for m in small if not m["complete"] and m["rm"] & 1 == 0])["name"])
+        quick.add(rnd.choice([m for m in ms if m["complete"] and m["k"] + m["r"] <= 5])["name"])
+        # a gap configuration, round 1 touching the last shard of the second region
+        quick.add(rnd.choice([m for m in ms if m["k"] + m["r"] == 6])["name"])
     for m in fam:
         R = "High" if m["rate"] == "high" else "Low"
         if m["kind"] == "enc_result":
@@ -29,7 +32,7 @@ def plan(ctx):
             hs.append(Harness(f"gen::c12g::{m['name']}", "C12",
                               f"{R}RateDecoder<NullEngine> ({m['k']},{m['r']}), given originals {m['om']:b} / recovery {m['rm']:b}, 2 rounds: restored_original(i) for UNBOUNDED symbolic i is Some iff i < original_count and not given; iterator = ascending (i, restored_original(i)) then None x3; after drop the same adds succeed again",
                               encodes=["DecoderResult::restored_original/restored_original_iter/drop", "RestoredOriginal::next", "DecoderWork::restored_original/reset_received", "RateDecoder::decode"],
-                              bounds="2 rounds, concrete received set, 2-byte shards, unwind 66", flags=FULL, timeout=1800, mem_gb=8,
+                              bounds="2 rounds, concrete received set, 2-byte shards, unwind 66", flags=FULL, timeout=2400, mem_gb=14 if m["rate"] == "low" else 8,
                               stubs=["core::slice::specialize::SpecFill::spec_fill -> stubs::stub_spec_fill"] if m.get("stub") else [],
                               symbolic="index (usize, unbounded), shard bytes", tiers=("quick", "thorough") if m["name"] in quick else ("thorough",)))
     return Plan(hs, assumptions=["NullEngine (which shards are reported does not depend on shard data)"],
